@@ -89,6 +89,7 @@ int  rt_block_owner (const void *p);       /* fiber that allocated the arena blo
 void rt_name (const void *p, size_t n, const char *name);   /* give an address range a symbolic name */
 const char *rt_addr_name (const void *p, char *buf, size_t n);
 const char *rt_fn_name (const void *pc, char *buf, size_t n);
+const char *rt_op_fn (const struct rt_op *o, char *buf, size_t n);   /* nsync function doing the operation (skips atomic.h helper frames) */
 void rt_track_stack_frames (int on);       /* O-mem on dead stack bytes */
 void rt_dead_mark (const void *p, size_t n, int owner, const char *what);  /* object whose owner's call has returned */
 void rt_dead_clear (int owner);
